@@ -689,6 +689,8 @@ def dec_cmd(l):
             c.setdefault("groups", []).append(g)
         elif h == "x-sub-valname":
             c["sub_valname"] = s_(r[0])
+        elif h == "x-template":
+            c["template"] = s_(r[0])
         elif h == "sub":
             c["subs"].append(dec_cmd(r[0][1:]))
     return c
@@ -973,6 +975,80 @@ def template_oracle(case, impl):
     return None
 
 
+TAG_TITLES = {"options": "OPTSz", "positionals": "POSz", "subcommands": "SUBSz"}
+
+
+def gen_template_tags(tier, rng, n):
+    """round 3: custom templates built from titled blocks `TITLE:\\n{tag}` for the row-writing tags ({options},
+    {positionals}, {subcommands}; any subset, any order, a tag may repeat) or `{all-args}`, compared with the model
+    (tag dispatch of write_templated_help) row by row; arguments hidden per mode, headings, hidden subcommands"""
+    out = []
+    while len(out) < n:
+        ctr = Ctr()
+        c = gen_cmd(rng, ctr, "p", 1, {"p_heading": rng.choice([0.0, 0.4]), "nflag": [1, 2, 3], "nopt": [0, 1, 2], "npos": [0, 1, 2],
+                                     "nsub": [0, 1, 2, 3]})
+        for a in c["args"]:
+            if rng.random() < 0.4 and not any(x.startswith("(x-hide") for x in a["items"]) and "required" not in " ".join(a["items"]) \
+                    and "hide" not in " ".join(a["items"]):
+                a["items"].append(rng.choice(["(x-hide)", "(x-hide-short)", "(x-hide-long)"]))
+        head = rng.choice(["{about-with-newline}\n", "{about}\n\n", ""]) + "{usage-heading} {usage}\n\n"
+        if rng.random() < 0.25:
+            body = "{all-args}"
+        else:
+            tags = [rng.choice(list(TAG_TITLES)) for _ in range(rng.choice([1, 2, 3, 3, 4]))]
+            body = "".join("%s%d:\n{%s}\n\n" % (TAG_TITLES[t], i, t) for i, t in enumerate(tags))
+            if rng.random() < 0.3:
+                body += "{unknownz}{tab}"
+        tmpl = head + body + "{after-help}"
+        c["items"].append("(x-template %s)" % hexs(tmpl))
+        for which in ("short", "long"):
+            out.append(case_sx(c, rng.choice([0, 30, 40, 80, 100]), which))
+    return out[:n]
+
+
+def template_tags_oracle(case, impl):
+    """hidden-absent (template_oracle) and, per titled block, visible-listed: {options} lists every non-positional
+    argument that is not hidden for the mode, {positionals} every such positional, {subcommands} every subcommand
+    that is not hidden"""
+    r = template_oracle(case, impl)
+    if r:
+        return r
+    if impl.startswith(("PANIC", "INVALID", "harness-error", "unknown-mode", "err", "noerr")):
+        return None
+    cmd, width, which, path = decode_case(case)
+    text = impl_text(impl)
+    tmpl = cmd.get("template")
+    if text is None or not tmpl:
+        return None
+    use_long = which == "long"
+    scr = split_screen(text)
+    if scr is None:
+        return "rendered template has no usage line"
+    secs = scr[2]
+    for title, tag in re.findall(r"(\w+):\n\{(\w+)\}", tmpl):
+        blk = secs.get(title)
+        if blk is None:
+            return "the block %r of the template is missing" % title
+        if tag in ("options", "positionals"):
+            for a in cmd["args"]:
+                if hidden_for_mode(a, use_long) or is_positional(a) != (tag == "positionals"):
+                    continue
+                if "long" in a:
+                    ok = re.search(r"--%s(?![\w-])" % re.escape(a["long"]), blk)
+                elif "short" in a:
+                    ok = short_occurs(blk, a["short"])
+                else:
+                    nm = a["valnames"][0] if a["valnames"] else a["id"]
+                    ok = ("<%s>" % nm) in blk or ("[%s]" % nm) in blk
+                if not ok:
+                    return "visible argument %s is not listed by {%s}" % (a["id"], tag)
+        elif tag == "subcommands":
+            for sc in cmd["subs"]:
+                if not sc.get("hide") and not re.search(r"(?m)^  %s(?![\w-])" % re.escape(sc["name"]), blk):
+                    return "visible subcommand %s is not listed by {subcommands}" % sc["name"]
+    return None
+
+
 def f32_oracle(case, impl):
     if not re.match(r"f32 checked \d+ differ \(\)\s*$", impl):
         return "the f32 comparison of arg_next_line_help differs from 5*taken > 2*term_w: " + impl[:200]
@@ -1003,7 +1079,7 @@ def describe(cases, name):
               "(x-hide-pv)", "hide", "disable_help_flag", "(sub ", "(short_flag", "(x-long-help", "reqeq", "last",
               "global", "(env ", "(x-hide-env)", "(x-hide-env-values)", "(default ", "(x-hide-default)", "(alias ", " v)", "(salias ",
               "(group ", "(required)", "(requires ", "(requires_if ", "subcommand_negates_reqs", "args_conflicts_with_subcommands",
-              "subcommand_required", "allow_external_subcommands", "(x-sub-valname"):
+              "subcommand_required", "allow_external_subcommands", "(x-sub-valname", "(x-template"):
         d["has " + k] = sum(1 for c in cases if k in c)
     ws = [int(re.search(r"\(width (\d+)\)", c).group(1)) for c in cases if "(width" in c]
     d["widths distinct"] = len(set(ws))
@@ -1019,6 +1095,7 @@ def streams(tier, rng):
     lev = gen_levels(tier, rng, 60 if q else 2000)
     bnd = gen_boundary(tier, rng)
     usf = gen_usage_forms(tier, rng, 400 if q else 8000)
+    tpt = gen_template_tags(tier, rng, 300 if q else 6000)
     out = [
         Stream("help-random", rnd, oracle=oracle, area="help", project=project, nontrivial=nontrivial,
                describe=describe(rnd, "random")),
@@ -1032,6 +1109,8 @@ def streams(tier, rng):
                describe=describe(bnd, "boundary")),
         Stream("help-usage-forms", usf, oracle=oracle, area="help", project=project, nontrivial=nontrivial,
                describe=describe(usf, "usage-forms")),
+        Stream("help-template-tags", tpt, oracle=template_tags_oracle, area="help", project=project, nontrivial=nontrivial,
+               describe=describe(tpt, "template-tags")),
         Stream("help-templates", gen_templates(tier, rng, 200 if q else 4000), oracle=template_oracle, area=None,
                nontrivial=nontrivial),
         Stream("help-f32", ["(helpf32 %d %d)" % (t, w) for (t, w) in ([(300, 300)] if q else [(1200, 1200), (70000, 40)])],
